@@ -175,7 +175,7 @@ LOOPFRESH_TABLE = {'canvas.CompositeCanvas.content_delta': (('C02', 'C04'),
                                                                  ('trimmed', ('$', '$ = False', '$ = True')),
                                                                  ('end_off',
                                                                   ('$ = _',
-                                                                   '_ != $',
+                                                                   '_ != $ and _ > 0',
                                                                    '_ += [(_, $)]',
                                                                    '_ += [(_, $, _)]',
                                                                    '_ += [(_, _, $)]',
